@@ -345,14 +345,16 @@ func c08(c *Ctx) {
 		g := c.Graph(fi)
 		// key ids: value last encoded into the key buffer before each Put/Delete
 		var lastKey ast.Expr
+		var mutV int
 		evicted := func(id ast.Expr) bool {
 			ok := false
 			ast.Inspect(fi.Body(), func(n ast.Node) bool {
 				if call, isC := n.(*ast.CallExpr); isC && astx.Builtin(info, call) == "delete" && len(call.Args) == 2 {
 					if se, isSel := ast.Unparen(call.Args[0]).(*ast.SelectorExpr); isSel && astx.FieldSel(info, se) == cacheField && astx.Same(info, call.Args[1], id) {
-						// under cacheMu
+						// under cacheMu, and on every path on which the record is mutated
 						v := g.VertexOf(call)
-						if c.lockFlow(fi, g, lockSet{}).must[v]["OutputStream.cacheMu"] == "W" {
+						onEveryPath := g.DominatedBy(mutV, func(x *cfgx.Vertex) bool { return x.ID == v }) || g.PostDominatedBy(mutV, g.Exit, func(x *cfgx.Vertex) bool { return x.ID == v })
+						if c.lockFlow(fi, g, lockSet{}).must[v]["OutputStream.cacheMu"] == "W" && onEveryPath {
 							ok = true
 						}
 					}
@@ -389,6 +391,7 @@ func c08(c *Ctx) {
 				if lastKey == nil {
 					continue
 				}
+				mutV = v.ID
 				pos := c.P.Pos(call.Pos())
 				construct := se.Sel.Name + " of batch " + astx.Str(lastKey)
 				// exemptions
@@ -432,6 +435,17 @@ func c08(c *Ctx) {
 			r.Check(lf.must[v.ID]["OutputStream.cacheMu"] == "W", "C08.S3", gu.Name(), "cache insert under cacheMu", c.P.Pos(as.Pos()), "lockset "+lf.must[v.ID].String(), "the cache is written without cacheMu in write mode")
 		}
 		r.Check(n == 1, "C08.S3", gu.Name(), "one cache insertion", c.P.Pos(gu.Node().Pos()), "found", "expected exactly one insertion into messagesCache")
+		// the batch is cached (and looked up) under the id that was asked for: the id parameter is never reassigned
+		var idParam types.Object
+		for _, fld := range gu.FuncType().Params.List {
+			for _, nm := range fld.Names {
+				idParam = info.Defs[nm]
+			}
+		}
+		if idParam != nil {
+			r.Check(len(defsOf(info, gu.Node(), idParam)) == 0, "C08.S3", gu.Name(), "the requested id is not overwritten", c.P.Pos(gu.Node().Pos()), "parameter has no assignment",
+				"getUnlocked assigns to its id parameter (e.g. as the variable of a range loop): the batch read from disk is cached under a different id and later look-ups of that id return the wrong batch")
+		}
 	}
 
 	// ---------- S4 lock hygiene
